@@ -347,6 +347,26 @@ class Fold(ast.NodeTransformer):
             return node.body if node.test.value else node.orelse
         return node
 
+    _BUILTINS = {"abs": abs, "len": len, "min": min, "max": max, "sum": sum, "any": any, "all": all}
+
+    def visit_Call(self, node):
+        # a builtin applied to literals only is a literal (Python's own value; constants carry no width)
+        self.generic_visit(node)
+        if isinstance(node.func, ast.Name) and node.func.id in self._BUILTINS and not node.keywords:
+            vals = []
+            for a in node.args:
+                if _isnum(a):
+                    vals.append(a.value)
+                elif isinstance(a, (ast.Tuple, ast.List)) and all(_isnum(e) for e in a.elts):
+                    vals.append([e.value for e in a.elts])
+                else:
+                    return node
+            try:
+                return ast.copy_location(ast.Constant(self._BUILTINS[node.func.id](*vals)), node)
+            except Exception:
+                return node
+        return node
+
 
 class Prep(ast.NodeTransformer):
     """strip annotations/decorators; wrap int/float/char literals in value positions"""
